@@ -14,6 +14,16 @@ EXISTING = {"flat": ["a", "b"], "nested": ["a", "m.x", "m.y"], "attrpath": ["a",
             "twins": ["z", "a.enable", "b.enable", "enable", "m.x"], "twins-inline": ["a.enable", "b.enable", "c.enable"],
             "attrpath-deep4": ["s.n.v.m.a", "s.n.v.m.b", "s.n.w", "k"], "attrpath-interleaved": ["s.n.a", "s.h.a", "s.n.p", "k"]}
 VALUES = ["2", '"s"', "[ 1 2 ]", "{ k = 1; }"]
+# documents whose values are references: edits go through the names to their defining bindings (C11), so the laws also compare
+# orders of edits that land in different scopes.  Paths listed resolve to pairwise different bindings under Nix scoping.
+REF_DOCS = {
+    "let-over-rec": ('let\n  release = version;\n  version = "1.0";\nin\nrec {\n  pname = "demo";\n  version = "2.0-local";\n  tag = release;\n}\n',
+                     ["pname", "version", "tag"]),
+    "fn-let-over-rec": ('{ lib }:\nlet\n  release = version;\n  version = "1.0";\nin\nrec {\n  version = "2.0-local";\n  tag = release;\n  meta = {\n    license = lib.mit;\n  };\n}\n',
+                        ["version", "tag", "meta.license"]),
+    "let-shadow": ('let\n  v = "1";\n  r = v;\nin\nlet\n  v = "2";\nin\n{\n  x = v;\n  y = r;\n  z = 0;\n}\n', ["x", "y", "z"]),
+    "rec-alias": ('let\n  v = "1";\nin\nrec {\n  alias = v;\n  x = alias;\n  w = "3";\n  y = w;\n}\n', ["x", "y"]),
+}
 
 
 def apply(text, script):
@@ -27,9 +37,9 @@ def apply(text, script):
 
 
 def laws(tier):
-    for doc_id, text in E.documents(tier):
-        content = doc_id.split("/")[1]
-        ex = EXISTING[content]
+    docs = [(d, t, EXISTING[d.split("/")[1]]) for d, t in E.documents(tier) if d.split("/")[1] in EXISTING]
+    docs += [(f"refs/{k}", t, ex) for k, (t, ex) in REF_DOCS.items()]
+    for doc_id, text, ex in docs:
         vals = VALUES if tier == "thorough" else VALUES[:3]
         for p in ex + ["zz", "m.zz", "@zz", "@v"]:
             for v in vals:
